@@ -124,7 +124,7 @@ def opZero : P String := do
   let (s, t) ← pShot
   let dist ← pF
   let r := Run.ofShot cfg s t
-  pure (match zeroAngle r (barrelElevationOf s) dist loopFuel skipFuel with
+  pure (match zeroAngleOfShot r dist loopFuel skipFuel with
     | .ok e => "ok " ++ outF e
     | .error e => outErr e)
 
